@@ -61,4 +61,14 @@ META = {
         text="Exploration: each generated case performs one precompile call on a state where victims hold delegations, accrued rewards, queued withdrawals and allowances; no account other than the direct caller may lose any component of its portfolio (except the allowed shares in transferFromShares, with exact allowance bookkeeping), state-changing methods fail under STATICCALL / DELEGATECALL / CALLCODE and under a governance switch covering the address or method, leaving the state identical to a no-op transaction.",
         note="The direct caller is the EOA or the interpreter contract; tx.origin differs from it in the contract-via-victim cases.",
     ),
+    "C09": dict(
+        technique="property-based testing (rapid) over generated EVM call trees executed by a hand-assembled interpreter contract, with the gas limit enumerated as a fault point; metamorphic oracle: deleting every EVM-dropped sub-tree must not change the resulting multi-store dump or the logs",
+        text="Fault enumeration: each generated tree (nested contracts, caught / propagated failures, reverting and invalid frames, all call kinds, all 12 state-changing precompile methods with valid and failing arguments) runs with ample gas and at a set of gas limits across 0..105 % of its gas use plus absolute boundary limits; failed transactions must equal a reverted no-op transaction, successful ones must equal the projection onto the frames the EVM kept - state, counters and logs.",
+        note="Outcome bits come from the EVM's own CALL success flags as returned by the interpreter contract.",
+    ),
+    "C08": dict(
+        technique="stateful property-based testing (rapid) of conversion histories plus generated single-contract EVM programs (interpreter contract) mixing token calls with converting precompile calls; conservation invariants over bank supply, ERC-20 storage and the erc20 module's indexes after every step",
+        text="Exploration: after every generated conversion / registration / toggle / alias step and after every generated EVM program, per pair: escrow equals ERC-20 total supply (module-owned, FX wrapper) or coin supply over all denominations (externally-owned), balances over the closed holder set equal total supply, the pair / denom / contract / alias indexes and bank metadata agree, and each conversion moves exactly its amount.",
+        note="Known, unrepaired findings (nested EVM execution inside precompile conversions; alias removal with outstanding supply) are excluded by construction and counted.",
+    ),
 }
